@@ -81,7 +81,28 @@ def _memo(fn, cache):
     return None
 
 
-def _function_obligations(modname, qual, fn, cache):
+def _self_reads_of_method(cls, name, seen=()):
+    """the self.<attr> state a method of the class reads (methods it calls on self followed, three levels deep); None when the method is not found"""
+    if cls is None or name in seen or len(seen) > 3:
+        return None
+    m = next((x for x in cls.body if isinstance(x, (ast.FunctionDef, ast.AsyncFunctionDef)) and x.name == name), None)
+    if m is None or not m.args.args or m.args.args[0].arg != "self":
+        return None
+    methods = {x.name for x in cls.body if isinstance(x, (ast.FunctionDef, ast.AsyncFunctionDef))}
+    out = set()
+    for n in ast.walk(m):
+        if isinstance(n, ast.Attribute) and isinstance(n.value, ast.Name) and n.value.id == "self" and isinstance(n.ctx, ast.Load):
+            if n.attr in methods:
+                sub = _self_reads_of_method(cls, n.attr, seen + (name,))
+                if sub is None:
+                    return None
+                out |= sub
+            else:
+                out.add("self." + n.attr)
+    return out
+
+
+def _function_obligations(modname, qual, fn, cache, cls=None):
     shape = _memo(fn, cache)
     if shape is None:
         return None
@@ -138,6 +159,13 @@ def _function_obligations(modname, qual, fn, cache):
     reads = set()
     for st in miss:
         reads |= {d for d in _reads(st) if d.split(".")[0] not in local_in_miss}
+    # a method called on self stands for the state of self it reads (self._render(...) reads self.indent): what must be in the key is that state
+    expanded = set()
+    for d in reads:
+        parts = d.split(".")
+        sub = _self_reads_of_method(cls, parts[1]) if len(parts) == 2 and parts[0] == "self" else None
+        expanded |= sub if sub is not None else {d}
+    reads = expanded
     key_names = {n.id for n in ast.walk(key) if isinstance(n, ast.Name)}
     out = []
     for d in sorted(reads):
@@ -167,22 +195,22 @@ def obligations(modules):
                 if isinstance(n, (ast.FunctionDef, ast.AsyncFunctionDef)):
                     w = _writes(n, containers)
                     if w:
-                        writers.append((prefix + n.name, n, w))
+                        writers.append((prefix + n.name, n, w, node if isinstance(node, ast.ClassDef) else None))
                 elif isinstance(n, ast.ClassDef):
                     visit(n, prefix + n.name + ".")
                 elif isinstance(n, ast.Lambda):
                     w = _writes(n, containers)
                     if w:
-                        writers.append((prefix + "<lambda:%d>" % n.lineno, n, w))
+                        writers.append((prefix + "<lambda:%d>" % n.lineno, n, w, None))
                 else:
                     visit(n, prefix)
         visit(tree, "")
         if not writers:
             obs.append({"id": "modstate:%s:functions-write-no-module-state" % modname, "holds": True, "detail": "", "function": modname})
             continue
-        for qual, fn, w in writers:
+        for qual, fn, w, cls in writers:
             for cache, line in sorted(w.items()):
-                got = _function_obligations(modname, qual, fn, cache) if not isinstance(fn, ast.Lambda) else None
+                got = _function_obligations(modname, qual, fn, cache, cls) if not isinstance(fn, ast.Lambda) else None
                 if got is None:
                     undecided.append(("%s.%s" % (modname, qual), "writes the module-level %s (line %d) outside a recognised memo shape: whether its result still depends "
                                                                  "on its arguments only is not decided here" % (cache, line)))
